@@ -276,7 +276,11 @@ impl Run {
     /// decode a CosmosMsg (serde form) into a record [k, tag, a, b, amt]:
     /// k = "msg" (a proposal message, identified by tag), "take" (cw20 pull a -> b), "refund" (deposit token paid to a)
     fn tag(&self, m: &Value) -> Value {
-        let rec = |k: &str, tag: String, a: String, b: String, amt: i64| json!({"k":k,"tag":tag,"a":a,"b":b,"amt":amt});
+        // harmless = dispatching it cannot fail (a note to the sink, a small bank send the multisig can afford)
+        let rec = |k: &str, tag: String, a: String, b: String, amt: i64| {
+            let harmless = k != "msg" || tag.starts_with("sink:") || tag == "bank:sink:1:uother";
+            json!({"k":k,"tag":tag,"a":a,"b":b,"amt":amt,"harmless":harmless})
+        };
         let num = |v: &Value| -> i64 { v.as_str().and_then(|x| x.parse::<i64>().ok()).unwrap_or(-1) };
         if let Some(ex) = m.get("wasm").and_then(|x| x.get("execute")) {
             let to = self.w.name_of(ex["contract_addr"].as_str().unwrap_or(""));
@@ -318,7 +322,10 @@ impl Run {
         let mut rlisted: std::collections::BTreeMap<u64, (String, i64)> = Default::default();
         let st_name = |s: &Status| -> &'static str { match s { Status::Open => "open", Status::Passed => "passed", Status::Rejected => "rejected", Status::Executed => "executed", Status::Pending => "pending" } };
         let mut cur: Option<u64> = None;
+        let mut guard = 0;
         loop {
+            guard += 1;
+            if guard > 60 { listed.insert(0, ("endless".into(), -1)); break; }
             let r: Option<cw3::ProposalListResponse> = self.q(&self.ms, &cw3_fixed_multisig::msg::QueryMsg::ListProposals { start_after: cur, limit: Some(30) });
             let Some(r) = r else { break };
             if r.proposals.is_empty() { break; }
@@ -326,7 +333,10 @@ impl Run {
             for p in r.proposals { listed.insert(p.id, (st_name(&p.status).to_string(), thr_resp_to_model(&p.threshold)["total"].as_i64().unwrap_or(-1))); }
         }
         let mut cur: Option<u64> = None;
+        let mut guard = 0;
         loop {
+            guard += 1;
+            if guard > 60 { rlisted.insert(0, ("endless".into(), -1)); break; }
             let r: Option<cw3::ProposalListResponse> = self.q(&self.ms, &cw3_fixed_multisig::msg::QueryMsg::ReverseProposals { start_before: cur, limit: Some(30) });
             let Some(r) = r else { break };
             if r.proposals.is_empty() { break; }
@@ -351,6 +361,7 @@ impl Run {
             let mut votes = vec![];
             let mut cursor: Option<String> = None;
             loop {
+                if votes.len() > 40 { break; }
                 let lv: VoteListResponse = w.smart(&self.ms, &cw3_fixed_multisig::msg::QueryMsg::ListVotes { proposal_id: id, start_after: cursor.clone(), limit: Some(30) }).unwrap();
                 if lv.votes.is_empty() {
                     break;
@@ -422,6 +433,7 @@ impl Run {
         let mut lvoters = vec![];
         let mut cursor: Option<String> = None;
         loop {
+            if lvoters.len() > 40 { break; }
             let r: Option<cw3::VoterListResponse> = self.q(&self.ms, &cw3_fixed_multisig::msg::QueryMsg::ListVoters { start_after: cursor.clone(), limit: Some(30) });
             let Some(r) = r else { break };
             if r.voters.is_empty() { break; }
